@@ -118,20 +118,25 @@ def decode (unwrapSites : Bool) : Nat → Ty → De → Outcome (Value × De)
   | 0, _, _ => .unmodelled
   | fuel + 1, ty, d =>
     match ty with
+    -- numbers and booleans are read from the percent-decoded section (`%35` is `5`; since fix 2c45ee6)
     | .bool => do
       let (sec, d') ← sectionOr unwrapSites "deserialize_bool" d
+      let sec := P.percentDecode sec
       if sec = TRUE then pure (.bool true, d')
       else if sec = FALSE then pure (.bool false, d') else .err .type
     | .uint bits => do
       let (sec, d') ← sectionOr unwrapSites "deserialize_uN" d
+      let sec := P.percentDecode sec
       match (if P.validUtf8 sec then P.parseInt false bits sec else none) with
       | some z => pure (.int z, d') | none => .err .type
     | .sint bits => do
       let (sec, d') ← sectionOr unwrapSites "deserialize_iN" d
+      let sec := P.percentDecode sec
       match (if P.validUtf8 sec then P.parseInt true bits sec else none) with
       | some z => pure (.int z, d') | none => .err .type
     | .float _ => do
       let (sec, d') ← sectionOr unwrapSites "deserialize_fN" d
+      let sec := P.percentDecode sec
       if P.validUtf8 sec && P.floatOk sec then pure (.floatText sec, d') else .err .type
     | .char => do
       let (sec, d') ← nextSection d
